@@ -163,6 +163,44 @@ PROPS = {
                 "domain scopes, in batches, on all networks (incl. constrained parameters), random domain sets",
         "assumptions": EVAL_ASSUME,
     },
+    "C06": {
+        "module": "HctlProofs.Props.C06",
+        "theorems": ["Hctl.C06.build_wf", "Hctl.C06.build_str", "Hctl.C06.mkAtom_wf", "Hctl.C06.mkUnary_wf", "Hctl.C06.mkBinary_wf",
+                     "Hctl.C06.mkHybrid_wf", "Hctl.C06.canonToks_derives", "Hctl.C06.parse_canonToks"],
+        "ks": ["k3", "k2", "k4"],
+        "spec_tied": ["k3"],
+        "full": False,
+        "not_proved": "the lexical half of the round trip (tokenize (render t) = canonToks t) is not proved; it is exercised by the "
+                      "round-trip oracle on constructed / parsed / preprocessed trees (K3, K2, K4) and by K1",
+        "rule": "K3: all trees with <= 4 (thorough 5) nodes over all node kinds + random deep trees over 18 identifier shapes; every "
+                "node's stored text/height vs the independent renderer; oracle: to_string -> parse_extended_formula -> equality",
+        "assumptions": ["identifiers are valid names that do not lex as operators/constants (PropNamesOK and the harness' name pool)"],
+    },
+    "C07": {
+        "module": "HctlProofs.Props.C07",
+        "theorems": ["Hctl.C07.rename_ok_iff", "Hctl.C07.rename_err_iff", "Hctl.C07.rename_alpha", "Hctl.C07.rename_depth_names",
+                     "Hctl.C07.rename_distinct_eq_depth", "Hctl.C07.rename_idem", "Hctl.C07.rename_wellScoped"],
+        "ks": ["k4"],
+        "spec_tied": ["k4"],
+        "full": True,
+        "rule": "K4: all trees with <= 4 (thorough 5) nodes over names {x, xx, y} (user names equal to internal ones), jumps anywhere, "
+                "bad propositions + random trees over 5 names; accept/reject kind and resulting tree; oracles: scope rules, "
+                "de Bruijn equality, names by depth, distinct = depth, idempotence",
+        "assumptions": ["the renamer model (HctlModel/Rename.lean) is the code's validate_and_rename_recursive: checked by K4 on every run"],
+    },
+    "C08": {
+        "module": "HctlProofs.Props.C08",
+        "theorems": ["Hctl.C08.alpha_invariant", "Hctl.C08.paren_invariant", "Hctl.C08.paren_invariant_inner",
+                     "Hctl.C08.const_spelling_invariant", "Hctl.C08.copy_by_canonical_name"],
+        "ks": ["o08"],
+        "spec_tied": ["o08:pure_"],
+        "full": False,
+        "not_proved": "invariance under whitespace and long/short operator spellings is a statement about the tokenizer, which is "
+                      "tied by K1 and checked end-to-end by the O08 oracle, not proved",
+        "rule": "O08: random closed formulae x (4 consistent renamings incl. internal names permuted, 3 respellings with random "
+                "whitespace / long operator names / redundant parentheses / constant spellings, 1 composition); results must be equal",
+        "assumptions": EVAL_ASSUME,
+    },
 }
 
 # what MANIFEST.json says per property
@@ -218,6 +256,26 @@ MANIFEST_TEXT.update({
     "C12": _ev("Lean theorems: the pattern matchers accept exactly the two patterns; the steady-state shortcut equals the generic "
                "evaluation of !{x}: AX {x} in any admissible universe (incl. domain scopes); the attractor shortcut equals !{x}: AG EF {x} "
                "under the terminal-SCC specification of the external algorithm. Oracle compares patterns with pattern-defeating rewrites."),
+})
+
+_FRONT_NOTE = ("Trusted: Lean kernel, axioms {propext, Classical.choice, Quot.sound}, the correspondence harness. The model of the "
+               "front end mirrors the Rust functions one-to-one and is compared with them exhaustively to a size bound + randomly "
+               "beyond on every run.")
+MANIFEST_TEXT.update({
+    "C06": {"text": "Lean theorems: every node built through the constructors stores exactly the canonical rendering and height of its "
+                    "structure; the canonical token list of any tree derives (hence parses back to) the tree. Correspondence: stored "
+                    "fields of all nodes of all small trees vs the independent renderer; round-trip oracle on constructed, parsed and "
+                    "preprocessed trees.",
+            "note": _FRONT_NOTE, "technique": "Lean 4 proof (structural induction) + differential correspondence check"},
+    "C07": {"text": "Lean theorems, full statement: preprocessing accepts exactly the well-scoped formulae over network propositions, the "
+                    "result is alpha-equivalent (equal de Bruijn erasure), names quantifiers by depth, has #names = nesting depth, and "
+                    "is a fixed point of preprocessing. Correspondence exhaustive to 4-5 nodes + random; model-free oracles.",
+            "note": _FRONT_NOTE, "technique": "Lean 4 proof (induction over the renamer with scope-map invariants) + differential correspondence check"},
+    "C08": {"text": "Lean theorems: alpha-equivalent accepted inputs are preprocessed to the same tree; redundant parentheses (outer and "
+                    "around any sub-formula) and constant spellings do not change the parse; the evaluator reads variables by canonical "
+                    "name. Oracle: results of rewritten texts (renaming, whitespace, parentheses, long names, constants) through the API.",
+            "note": _FRONT_NOTE + " Whitespace/long-spelling invariance of the tokenizer is tied by correspondence, not proved.",
+            "technique": "Lean 4 proof (corollaries of C05/C07) + differential correspondence check + rewrite oracle"},
 })
 
 ALL_IDS = ["C%02d" % i for i in range(1, 21)]
